@@ -11,6 +11,7 @@ import uuid
 from hypothesis import strategies as st
 
 from hv.builders import envelope as be
+from hv.core import track as core_track
 from hv.core import Outcome, lib
 
 ID = "C16"
@@ -125,7 +126,7 @@ def decrypt(data: bytes, key: bytes, aad):
     from dissect.hypervisor.util.envelope import Envelope
 
     def run():
-        e = Envelope(io.BytesIO(data))
+        e = Envelope(core_track(data))
         return e.decrypt(key, aad=aad)
 
     return lib(run)
